@@ -59,6 +59,24 @@ impl View {
         }
         for (a, l) in fresh { self.seen.entry(a).or_insert(l); }
     }
+    /// a message the customer *would* send under a degenerate draw: its G1 elements — the shown signatures
+    /// ("every signature is re-randomized before it is shown") and the G1 commitments — are checked against
+    /// everything seen so far, not recorded.  The identity (what a zero re-randomiser legitimately yields) is
+    /// skipped; G2 commitments and scalars are not examined: under a zero blinding factor a digit commitment is
+    /// `d·Y~` (for d = 1 a public parameter) — a probability-1/q event outside the statement, not a reuse defect.
+    pub fn probe_message(&mut self, ctx: &mut Ctx, label: &str, ty: &str, bytes: &[u8]) {
+        let at = match self.atoms(ty, bytes) { Some(a) => a, None => { ctx.broken(&format!("cannot lay out {} as {}", label, ty)); return; } };
+        for (i, (o, l, k)) in at.iter().enumerate() {
+            if *k != 'A' { continue; }
+            let a = &bytes[*o..*o + *l];
+            if a[0] == 0xc0 && a[1..].iter().all(|b| *b == 0) { continue; }
+            ctx.evals += 1;
+            if let Some(first) = self.seen.get(a) {
+                ctx.violation(&format!("{}: atom {} ({} bytes) equals a value the merchant has already seen in {}", label, i, l, first),
+                    json!({"class": format!("atom-reused-under-degenerate-draw:{}", label.split('#').next().unwrap_or(label)), "atom_index": i, "atom": hex::encode(a), "first_seen": first, "message": label}));
+            }
+        }
+    }
     /// secrets held by the customer when a message has just been sent
     pub fn secrets(&mut self, ctx: &mut Ctx, label: &str, secrets: &[(String, [u8; 32])]) {
         for (name, s) in secrets {
@@ -127,6 +145,55 @@ fn close_channel(ctx: &mut Ctx, w: &World, view: &mut View, ch: &mut Chan) {
     view.secrets(ctx, &label, &secrets);
     ctx.count(&format!("message:closing:{}", name));
     ch.closed = true;
+}
+
+/// Degenerate randomness: one scalar draw of `start` / `close` forced to zero, at every position in turn.
+/// Whatever the message then contains, it must not be a value the merchant has already seen (a zero
+/// re-randomiser may yield the identity, never the stored signature).
+fn zero_draw_probes(ctx: &mut Ctx, w: &World, view: &mut View, ch: &Chan) {
+    let book = ctx.book.clone();
+    let stage = match &ch.stage { Some(s) => s, None => return };
+    let bytes = stage.bytes();
+    // close with a zero re-randomiser, from this stage
+    if !matches!(stage, Stage::Requested(_)) {
+        if let Ok(copy) = stage.restore() {
+            let name = copy.name();
+            let mut rng = ScriptedRng::new(ctx.prng.gen(), book.clone());
+            rng.force_scalars(&[Scalar::zero()]);
+            let cm = match copy { Stage::Inactive(x) => Some(x.close(&mut rng)), Stage::Ready(x) => Some(x.close(&mut rng)), Stage::Started(x) => Some(x.close(&mut rng)), Stage::Locked(x) => Some(x.close(&mut rng)), _ => None };
+            if let Some(cm) = cm {
+                view.probe_message(ctx, &format!("closing-message-from-{}-with-zero-randomiser#{}", name, ch.tag), "customer::ClosingMessage", &wire::ser(&cm));
+                ctx.count("probe:close-zero-randomiser");
+            }
+        }
+    }
+    if let Stage::Ready(_) = stage {
+        let amount = crate::props::c02::valid_amount(ctx, ch.cb, ch.mb);
+        // how many scalars does start draw?
+        let n = {
+            let r: zkabacus_crypto::customer::Ready = match wire::de(&bytes) { Ok(r) => r, Err(_) => return };
+            let mut rng = ScriptedRng::new(ctx.prng.gen(), book.clone());
+            let _ = r.start(&mut rng, amount_of(amount), &ch.a.context(), &w.customer);
+            rng.scalars_in_log().len()
+        };
+        let stride = if ctx.thorough() { 1 } else { (n / 24).max(1) };
+        let off = ctx.prng.gen_range(0..stride);
+        for k in (off..n).step_by(stride) {
+            let r: zkabacus_crypto::customer::Ready = match wire::de(&bytes) { Ok(r) => r, Err(_) => return };
+            let mut rng = ScriptedRng::new(ctx.prng.gen(), book.clone());
+            let mut forced: Vec<Scalar> = (0..k).map(|_| crate::gen::nonzero(&mut ctx.prng)).collect();
+            forced.push(Scalar::zero());
+            rng.force_scalars(&forced);
+            let _ = zkchannels_crypto::proofs::verif_hooks::drain_challenges();
+            if let Ok((_started, msg)) = r.start(&mut rng, amount_of(amount), &ch.a.context(), &w.customer) {
+                let label = format!("pay-message-with-scalar-draw-{}-zero#{}", k, ch.tag);
+                view.probe_message(ctx, &format!("{}(nonce)", label), "Nonce", &wire::ser(&msg.nonce));
+                view.probe_message(ctx, &label, "PayProof", &wire::ser(&msg.pay_proof));
+                ctx.count("probe:start-zero-draw");
+            }
+            let _ = zkchannels_crypto::proofs::verif_hooks::drain_challenges();
+        }
+    }
 }
 
 fn establish(ctx: &mut Ctx, w: &World, view: &mut View, ch: &mut Chan) -> bool {
@@ -226,6 +293,8 @@ pub fn run(ctx: &mut Ctx) {
             if ch.closed || ch.stage.is_none() { continue; }
             if !pay(ctx, &w, &mut view, ch) { ok = false; }
         }
+        // degenerate draws, on every channel still open
+        if ok { for ch in chans.iter() { if !ch.closed && ch.payments > 0 { zero_draw_probes(ctx, &w, &mut view, ch); } } }
         // every channel still open is closed from wherever it stands (Ready)
         for ch in chans.iter_mut() { if ok && !ch.closed && ch.stage.is_some() { close_channel(ctx, &w, &mut view, ch); } }
         ctx.count(if ok { "history:complete" } else { "history:stopped-early" });
